@@ -1323,3 +1323,29 @@ func (c *Census) MissingPairs() []string {
 	sort.Strings(miss)
 	return miss
 }
+
+// HasPermutedRecord: some record literal is written in another field order than the declaration.
+func HasPermutedRecord(p *Prog) bool {
+	decl := map[string][]string{}
+	for _, d := range p.Decls {
+		if d.K == DRecord {
+			var ns []string
+			for _, f := range d.Fields {
+				ns = append(ns, f.Name)
+			}
+			decl[d.Name] = ns
+		}
+	}
+	found := false
+	p.WalkExprs(func(_, e *Expr) {
+		if e.K == ERecord {
+			ns := decl[e.Name]
+			for i := range e.Fields {
+				if i >= len(ns) || ns[i] != e.Fields[i] {
+					found = true
+				}
+			}
+		}
+	})
+	return found
+}
